@@ -48,6 +48,38 @@ class SubDict(dict):
     pass
 
 
+# round 9: instances of user subclasses that override nothing (what `namedtuple` / a bare `class S(list): pass` give).  Module level:
+# picklable by reference, printed as `c15_values.<name>` in every interpreter.
+class SubList2(list):
+    pass
+
+
+class SubTuple(tuple):
+    __slots__ = ()
+
+
+NT1 = collections.namedtuple("NT1", "x")
+NT2 = collections.namedtuple("NT2", "x y")
+NT2b = collections.namedtuple("NT2b", "x y")
+NT3 = collections.namedtuple("NT3", "x y z")
+
+
+class SubFset(frozenset):
+    __slots__ = ()
+
+
+class SubSet(set):
+    pass
+
+
+class SubODict(collections.OrderedDict):
+    pass
+
+
+class SubDeque(collections.deque):
+    pass
+
+
 class Unpicklable:
     __hash__ = None  # type: ignore[assignment]
 
@@ -69,7 +101,92 @@ CLASSES = {
     "bytearray": bytearray, "array": array.array, "int": int, "float": float, "bool": bool, "str": str, "bytes": bytes,
     "nonetype": type(None),
 }
-OTHER_CLASSES = [Obj, Obj2, SubList, SubDict, Unpicklable, type, object, complex]
+OTHER_CLASSES = [Obj, Obj2, SubList, SubDict, Unpicklable, type, object, complex,
+                 SubList2, SubTuple, NT1, NT2, NT2b, NT3, SubFset, SubSet, SubODict, SubDeque]      # (append only: specs name classes by position)
+# user subclass -> the builtin class whose behaviour it inherits unchanged
+SUB_BASE = {SubList: list, SubList2: list, SubTuple: tuple, NT1: tuple, NT2: tuple, NT2b: tuple, NT3: tuple, SubFset: frozenset,
+            SubSet: set, SubDict: dict, SubODict: collections.OrderedDict, SubDeque: collections.deque}
+SUB_BY_NAME = {c.__name__: c for c in SUB_BASE}
+SUB_FOR = {"list": ["SubList", "SubList2"], "tuple": ["SubTuple", "NT1", "NT2", "NT2b", "NT3"], "fset": ["SubFset"], "set": ["SubSet"],
+           "dict": ["SubDict"], "odict": ["SubODict"], "deque": ["SubDeque"]}
+
+
+def sub_bases():
+    """the table of `WV.subOk` (Model/HashableSubRel.lean): class number -> the builtin base, for every modelled user subclass"""
+    np = _np()
+    return [[other_index(c), cls_name(b)] for c, b in SUB_BASE.items()] + [[other_index(np.ma.MaskedArray), "ndarray"]]
+
+
+def make_sub(cls, base_value):
+    """an instance of the user class `cls` with the content of `base_value` (an instance of its builtin base)"""
+    if type(base_value) is not SUB_BASE[cls]:
+        raise ValueError("base mismatch")
+    if hasattr(cls, "_fields"):
+        if len(cls._fields) != len(base_value):
+            raise ValueError("arity")
+        return cls(*base_value)
+    if cls is SubDeque:
+        return cls(base_value, maxlen=base_value.maxlen)
+    return cls(base_value)
+
+
+def to_base(x):
+    """the builtin-class copy of an instance of a user subclass (same element objects, same order)"""
+    b = SUB_BASE[type(x)]
+    if b is collections.deque:
+        return collections.deque(x, maxlen=x.maxlen)
+    return b(x)
+
+
+def erase_hashable_sub(x):
+    """`x` with every HASHABLE instance of a modelled tuple / frozenset subclass replaced by its builtin copy, at any depth (what
+    `==` / `hash` of a key see); unhashable subclass instances keep their class"""
+    t = type(x)
+    if isinstance(x, type):                      # a class object (the namedtuple classes have `_fields` themselves)
+        return x
+    if t in SUB_BASE and SUB_BASE[t] in (tuple, frozenset):
+        try:
+            hash(x)
+            return erase_hashable_sub(to_base(x))
+        except TypeError:
+            pass
+    if isinstance(x, tuple) and not hasattr(x, "_fields"):
+        return t(erase_hashable_sub(y) for y in x)
+    if hasattr(x, "_fields"):
+        return t(*[erase_hashable_sub(y) for y in x])
+    if isinstance(x, list):
+        return t(erase_hashable_sub(y) for y in x)
+    if isinstance(x, collections.deque):
+        return t((erase_hashable_sub(y) for y in x), maxlen=x.maxlen)
+    if t in (frozenset, set):
+        return t(erase_hashable_sub(y) for y in x)
+    if t in (dict, collections.OrderedDict, SubDict, SubODict):
+        return t((erase_hashable_sub(k), erase_hashable_sub(v)) for k, v in x.items())
+    if t is collections.defaultdict:
+        d = collections.defaultdict(x.default_factory)
+        for k, v in x.items():
+            d[erase_hashable_sub(k)] = erase_hashable_sub(v)
+        return d
+    return x
+
+
+def has_hashable_sub(x, _depth=0):
+    t = type(x)
+    if isinstance(x, type):
+        return False
+    if t in SUB_BASE and SUB_BASE[t] in (tuple, frozenset):
+        try:
+            hash(x)
+            return True
+        except TypeError:
+            pass
+    if _depth > 8:
+        return False
+    if isinstance(x, (tuple, list, set, frozenset, collections.deque)):
+        return any(has_hashable_sub(y, _depth + 1) for y in x)
+    if isinstance(x, dict):
+        return any(has_hashable_sub(k, _depth + 1) or has_hashable_sub(v, _depth + 1) for k, v in x.items())
+    return False
 
 
 def cls_name(c):
@@ -129,6 +246,8 @@ class Builder:
             return [self.b(x) for x in s[1]]
         if t == "sublist":
             return SubList(self.b(x) for x in s[1])
+        if t == "sub":                  # ["sub", class name, spec of a value of the builtin base]: an instance of the user subclass
+            return make_sub(SUB_BY_NAME[s[1]], self.b(s[2]))
         if t == "set":
             out = set()
             for x in s[1]:
@@ -314,6 +433,40 @@ class Encoder:
             d = hashlib.md5(cloudpickle.dumps(x)).hexdigest()  # noqa: S324
             return {"k": "opaque", "cls": other_index(t), "d": [ord(c) for c in d], "x": []}
         return self.atom(x)
+
+
+class WideEncoder(Encoder):
+    """Values for `Model/HashableSub.lean` (`wkeys`): a container node of a modelled user subclass is the node of its builtin base
+    with `"sub": <class number>`; with `erase` (keys: a hashable subclass instance inside a key compares and hashes as its base) the
+    mark is dropped.  A MaskedArray without masked elements is an ndarray subclass instance."""
+
+    def __init__(self):
+        super().__init__()
+        self.erase = False
+        self.marks = 0
+
+    def enc(self, x, order=None):
+        np = _np()
+        t = type(x)
+        if t in SUB_BASE:
+            j = super().enc(to_base(x), order)
+        elif t is np.ma.MaskedArray:
+            if np.ma.getmaskarray(x).any() or x.dtype.kind not in "iufb":
+                raise OutOfModel("masked element")
+            j = super().enc(np.asarray(x.data), order)
+        else:
+            return super().enc(x, order)
+        if not self.erase:
+            j["sub"] = other_index(t)
+            self.marks += 1
+        return j
+
+    def enc_key(self, k):
+        self.erase = True
+        try:
+            return self.enc(k)
+        finally:
+            self.erase = False
 
 
 def enc_pandas(enc: Encoder, x):
